@@ -2,7 +2,7 @@
     advertise.  Statements quoted by type from ProtoFacts.v, NpFactsA.v and
     ViewFacts.v (printed by [Check] below). *)
 From MW Require Import Base Store Monad Usage Server Websocket Service Findings Inv Obs
-     ProtoFacts NpFactsA StepFacts ViewFacts Inst_Params.
+     ProtoFacts NpFactsA StepFacts ViewFacts ViewFactsR Inst_Params.
 Local Open Scope list_scope.
 
 (** `list` is answered (after the ack) by exactly one `nameplates` frame carrying
@@ -60,6 +60,38 @@ Check C18_same_timer_same_firing.
 Print Assumptions C18_same_timer_same_firing.
 
 (** all twelve configurations of the property share the repository's constants *)
+(** ** closed form, from the initial state, for every history with sweeps AND RESTARTS (ViewFactsR.v)
+
+    Any two configurations with the same expiration time and sweep period (listing allowed or
+    not, usage database or not, any blur interval), the same history from their initial states:
+    the channel-relevant view of the final states, every frame on every connection except for
+    the content of `nameplates` answers (all frames outright when the listing setting agrees),
+    and every escaped exception are identical.  No hypothesis about when the sweep timers fire:
+    with equal periods they fire at the same instants (carried in the invariant).  [ERestart]
+    and [ECrash 0 b] (the process dies before the event) are allowed; a crash after the k-th
+    commit is not comparable across configurations -- the usage database's commits are
+    interleaved with the channel database's, so "the k-th commit" names different instants
+    (the Example shows 4 against 2 commits for one sweep) -- and is what C10 covers. *)
+Theorem C18_config_erasure_from_init : ltac:(let t := type of config_erasure_from_init in exact t).
+Proof. exact config_erasure_from_init. Qed.
+Check C18_config_erasure_from_init.
+Print Assumptions C18_config_erasure_from_init.
+
+Theorem C18_config_erasure_from_init_full : ltac:(let t := type of config_erasure_from_init_full in exact t).
+Proof. exact config_erasure_from_init_full. Qed.
+Check C18_config_erasure_from_init_full.
+Print Assumptions C18_config_erasure_from_init_full.
+
+(** ... and from any two related states (different usage databases, different boot times) *)
+Theorem C18_config_erasure_any_state : ltac:(let t := type of config_erasure_run in exact t).
+Proof. exact config_erasure_run. Qed.
+Check C18_config_erasure_any_state.
+Print Assumptions C18_config_erasure_any_state.
+
+Example C18_restart_nonvacuous : ltac:(let t := type of config_erasure_nonvacuous in exact t).
+Proof. exact config_erasure_nonvacuous. Qed.
+
+
 Example C18_nonvacuous :
   exp (gen_cfg true true (Some 56)) = exp (gen_cfg false false None) /\
   period (gen_cfg true true (Some 56)) = period (gen_cfg false false None) /\
